@@ -21,6 +21,7 @@ ASSUMPTIONS = [
     'Json values are trees of None / bool / int / str / list / dict with str keys (no floats, tuples or custom objects in the Coq model; the search also uses nothing else)',
     'mutations reach a nested container through a chain of __getitem__ calls from the attribute value (handles kept across operations are path-addressed; '
     'a handle to a container that was removed from the document is outside the model)',
+    'lst *= n with n >= 2 on a list that holds containers makes the copies share them (aliasing): outside the tree model, not generated',
     'extended slices (step != 1), sort(key=...) and list.sort on mixed-type lists are exercised by the search only, not in the Coq model',
     'TrackedArray is modelled as a TrackedList of ints with the method table TrackedArray exposes; item validation errors are checked by the harness only',
     'the object is alive and its session is open (tracked_method skips everything for a dead weakref; a closed session raises)',
@@ -97,7 +98,10 @@ def gen_list_op(rng, c, scalars_only=False, array=False):
         if not sortable(c): return 'reverse', []
         return m, [rng.random() < 0.4]
     if m == 'iadd': return m, [[val() for _ in range(rng.randint(0, 2))]]
-    if m == 'imul': return m, [rng.choice([0, 1, 2, 2, -1])]
+    if m == 'imul':
+        # lst *= n (n >= 2) makes the copies share their nested containers; the model is a tree, so only scalar lists are multiplied
+        if any(isinstance(x, (list, dict)) for x in c): return m, [rng.choice([0, 1, -1])]
+        return m, [rng.choice([0, 1, 2, 2, -1])]
     return m, []
 
 def gen_dict_op(rng, c):
@@ -369,6 +373,8 @@ def classify(kind, doc, ops, res):
     acts = [(op, tr) for op, tr in zip(ops, res['trace']) if op['m'] not in ('commit', 'newsession', 'touch_other')]
     for op, tr in acts:
         if not tr['tagged']:
+            if name(op) in ('__iadd__', '__imul__', '__ior__'):       # plain containers brought in by an unwrapped operator: same defect
+                return 'unwrapped:%s.%s' % (cont_kind(op), name(op))
             form = 'non-list-iterable' if (op['m'] == 'extend' and not op['a'][0]) or (op['m'] == 'setslice' and not op['a'][2]) else 'plain-arguments'
             if tr['dirty']:
                 return 'untracked-nested-after:%s.%s:%s' % (cont_kind(op), name(op), form)
